@@ -213,10 +213,10 @@ theorem insdcFeature_step {β : Type} (reg : Registry) (depth : Nat) (f : QFeatu
   · simp [hok]
 
 /-- the main loop behind the first feature (`i ≠ 0`: a line feed in front of every feature) -/
-theorem insdcTableLoop_rest (reg : Registry) (T : List Feature) (depth : Nat) (fs : List QFeature)
+theorem insdcTableLoop_rest (reg : Registry) (T : List Feature) (d0 : Int) (depth : Nat) (fs : List QFeature)
     (hd : ∀ f ∈ fs, 5 + f.key.length + 1 ≤ depth) (i : Int) (hi : 0 < i) (b : Bytes) :
     wOut (insdcFormatterStringLoop2 Loc.printB (isQuotedIn reg) (isLiteralIn reg) (isToggleIn reg)
-        { Table := T, Prefix := sp 5, Depth := 21 } (depth : Int) (fs.map goFeature) i b) =
+        { Table := T, Prefix := sp 5, Depth := d0 } (depth : Int) (fs.map goFeature) i b) =
       (do let r ← restText reg depth fs; pure (b ++ r)) := by
   induction fs generalizing i b with
   | nil => simp [insdcFormatterStringLoop2, restText, bind, Except.bind, pure, Except.pure]
@@ -271,25 +271,29 @@ theorem foldl_max_ge (fs : List QFeature) (d : Nat) :
     | inl h1 => subst h1; omega
     | inr h2 => exact h.2 f h2
 
-/-- **insdc.go `INSDCFormatter{table, "     ", 21}.String()` is the model's `tableText`** — for EVERY
-table, under every registry: the same bytes, and a Go panic (a `Props` row without a name) exactly where the
-model answers `.error .panic`.  (`Location.String()` = `Loc.printB`, the registry look-ups = membership.) -/
-theorem insdcFormatterString_eq (reg : Registry) (fs : List QFeature) :
+/-- the location column for a formatter of depth `d0`: `tableDepth` is the case 21 -/
+def tableDepthFrom (d0 : Nat) (fs : List QFeature) : Nat := fs.foldl (fun d f => max d (5 + f.key.length + 1)) d0
+
+/-- **insdc.go `INSDCFormatter{table, "     ", d0}.String()`, every depth `d0`**: the table laid out with the
+location column `max d0 (widest key + 6)` — the same bytes as the model's `tableTextD`, a Go panic (a `Props`
+row without a name) exactly where the model answers `.error .panic`.  (`Location.String()` = `Loc.printB`,
+the registry look-ups = membership.) -/
+theorem insdcFormatterString_depth_eq (reg : Registry) (d0 : Nat) (fs : List QFeature) :
     wOut (insdcFormatterString Loc.printB (isQuotedIn reg) (isLiteralIn reg) (isToggleIn reg)
-        { Table := fs.map goFeature, Prefix := sp 5, Depth := 21 }) = tableText reg fs := by
-  unfold insdcFormatterString tableText
-  have hdepth : insdcFormatterStringLoop { Table := fs.map goFeature, Prefix := sp 5, Depth := 21 }
-      (fs.map goFeature) (21 : Int) = ((tableDepth fs : Nat) : Int) := insdcDepthLoop_eq (fs.map goFeature) 21 fs 21
+        { Table := fs.map goFeature, Prefix := sp 5, Depth := (d0 : Int) }) = tableTextD reg (tableDepthFrom d0 fs) fs := by
+  unfold insdcFormatterString
+  have hdepth : insdcFormatterStringLoop { Table := fs.map goFeature, Prefix := sp 5, Depth := (d0 : Int) }
+      (fs.map goFeature) (d0 : Int) = ((tableDepthFrom d0 fs : Nat) : Int) := insdcDepthLoop_eq (fs.map goFeature) d0 fs d0
   simp only [hdepth]
-  have hge : 21 ≤ tableDepth fs ∧ ∀ f ∈ fs, 5 + f.key.length + 1 ≤ tableDepth fs := foldl_max_ge fs 21
+  have hge : d0 ≤ tableDepthFrom d0 fs ∧ ∀ f ∈ fs, 5 + f.key.length + 1 ≤ tableDepthFrom d0 fs := foldl_max_ge fs d0
   cases fs with
   | nil => simp [insdcFormatterStringLoop2, tableTextD]
   | cons f fs =>
     rw [tableTextD_cons]
     simp only [List.map_cons, insdcFormatterStringLoop2]
     rw [if_neg (by simp)]
-    rw [insdcFeature_step reg (tableDepth (f :: fs)) f (hge.2 f (List.mem_cons_self ..)) []]
-    cases hf : featureText reg (tableDepth (f :: fs)) f with
+    rw [insdcFeature_step reg (tableDepthFrom d0 (f :: fs)) f (hge.2 f (List.mem_cons_self ..)) []]
+    cases hf : featureText reg (tableDepthFrom d0 (f :: fs)) f with
     | error e =>
       have : e = .panic := by
         unfold featureText at hf
@@ -297,10 +301,10 @@ theorem insdcFormatterString_eq (reg : Registry) (fs : List QFeature) :
       simp [bind, Except.bind, this]
     | ok a =>
       simp only [List.nil_append]
-      have hrest := insdcTableLoop_rest reg (goFeature f :: fs.map goFeature) (tableDepth (f :: fs)) fs
+      have hrest := insdcTableLoop_rest reg (goFeature f :: fs.map goFeature) (d0 : Int) (tableDepthFrom d0 (f :: fs)) fs
         (fun g hg => hge.2 g (List.mem_cons_of_mem _ hg)) (0 + 1) (by omega) a
       cases hr : insdcFormatterStringLoop2 Loc.printB (isQuotedIn reg) (isLiteralIn reg) (isToggleIn reg)
-          { Table := goFeature f :: fs.map goFeature, Prefix := sp 5, Depth := 21 } (tableDepth (f :: fs) : Int)
+          { Table := goFeature f :: fs.map goFeature, Prefix := sp 5, Depth := (d0 : Int) } (tableDepthFrom d0 (f :: fs) : Int)
           (fs.map goFeature) (0 + 1) a with
       | none =>
         rw [hr] at hrest
@@ -314,6 +318,14 @@ theorem insdcFormatterString_eq (reg : Registry) (fs : List QFeature) :
         rw [wOut_some] at hrest
         rw [hrest]
         simp [bind, Except.bind]
+
+/-- **insdc.go `INSDCFormatter{table, "     ", 21}.String()` is the model's `tableText`** — for EVERY
+table, under every registry: the same bytes, and a Go panic (a `Props` row without a name) exactly where the
+model answers `.error .panic`. -/
+theorem insdcFormatterString_eq (reg : Registry) (fs : List QFeature) :
+    wOut (insdcFormatterString Loc.printB (isQuotedIn reg) (isLiteralIn reg) (isToggleIn reg)
+        { Table := fs.map goFeature, Prefix := sp 5, Depth := 21 }) = tableText reg fs :=
+  insdcFormatterString_depth_eq reg 21 fs
 
 /-- **the initial qualifier-name lists of insdc.go are `Registry.default`** -/
 theorem registry_default_eq :
